@@ -11,7 +11,7 @@ var c03Shapes = []string{
 	"find all 'a'", "find all 'ab'", "find all any", "find all at least 1 any", "find all at least 1 any fewest 'a'",
 	"find all whole line", "find all whole file", "find all whole word", "find all line start any", "find all any line end",
 	"find all at least 1 not 'a'", "find all not in 'a', 'b'", "find all at least 1 not in 'a'", "find all at least 1 letter",
-	"find all whitespace", "find all at least 1 whitespace any", "find all any = x", "find all (any = x any) = y", "find all at least 1 (any = x) 'a'",
+	"find all whitespace", "find all at least 1 whitespace any", "find all any = x", "find all (any = x any) = y", "find all at least 0 (any = x) 'a'",
 	"find all @/a+/", "find all @/(a|b)c/", "find all @/.$/", "find all @/^./", "find all @/[^a]/", "find all @/\\s./",
 	"find all at least 1 any named l", "find all at least 1 (any = x) named l 'a'", "find all between 1 and 2 letter named l",
 	"replace all any with 'xy'", "replace all at least 1 letter with 'z'", "find skip 1 any", "find top 2 any", "find last 2 any",
